@@ -51,6 +51,8 @@ struct P {
     hist: Vec<String>,
     rng: Rng,
     payload: u64,
+    /// property the ledger's "destroyed twice / exposed after destruction" faults are reported under
+    tag: &'static str,
 }
 
 fn panic_msg(e: &Box<dyn std::any::Any + Send>) -> String {
@@ -100,7 +102,7 @@ impl P {
 
     fn faults(&mut self, when: &str) -> R {
         if let Some(m) = ledger::take_faults().into_iter().next() {
-            return Err(("C19", format!("{}: {}", when, m)));
+            return Err((self.tag, format!("{}: {}", when, m)));
         }
         Ok(())
     }
@@ -229,6 +231,7 @@ fn run_case(rep: &mut Report, case: u64) {
         hist: Vec::new(),
         rng: rng.clone(),
         payload: 0x900,
+        tag: if cfg.prop == "C08" { "C08" } else { "C19" },
     };
     for k in 0..st.drivers.len() {
         for e in &ents {
@@ -250,6 +253,9 @@ fn run_case(rep: &mut Report, case: u64) {
         st.comps.iter().map(|c| c.len()).collect::<Vec<_>>()
     ));
     trace::push(&st.hist[0]);
+    // change-tracking primaries: a reader registered now must be able to replay the membership
+    let mut reader = st.drivers[0].register_reader(st.w());
+    let baseline: BTreeSet<u32> = st.comps[0].keys().cloned().collect();
     let members0 = st.comps[0].len() as u64;
     let total_members: u64 = st.comps.iter().map(|c| c.len() as u64).sum();
     // which destructor call panics
@@ -265,6 +271,7 @@ fn run_case(rep: &mut Report, case: u64) {
     };
     let mut injected = false;
     let mut destroyed_before_panic = 0u64;
+    let mut event_replays = 0u64;
     let r: R = (|| {
         let before = ledger::stats_snapshot()["ledger_destroyed_in_world"];
         let zbefore = ledger::zst_balance().1;
@@ -469,6 +476,38 @@ fn run_case(rep: &mut Report, case: u64) {
         st.faults(&format!("{} on {} with destructor call #{} panicking", OPS[op], name0, k))?;
         if !world_gone {
             st.resync()?;
+            if let (Some(r), true) = (reader.as_mut(), OPS[op] != "clear") {
+                // C12 across a caught destructor panic: replaying Inserted / Removed over the
+                // membership at registration must still reproduce the membership
+                let evs = st.drivers[0].read_events(st.w(), r);
+                let mut replayed = baseline.clone();
+                for e in &evs {
+                    match e {
+                        specs::storage::ComponentEvent::Inserted(i) => {
+                            replayed.insert(*i);
+                        }
+                        specs::storage::ComponentEvent::Removed(i) => {
+                            replayed.remove(i);
+                        }
+                        _ => {}
+                    }
+                }
+                let now: BTreeSet<u32> = st.comps[0].keys().cloned().collect();
+                if replayed != now {
+                    return Err((
+                        "C12",
+                        format!(
+                            "{} on {} (destructor call #{} panicking): replaying the Inserted/Removed events over the membership at registration gives {:?} but the storage's membership is {:?}",
+                            OPS[op],
+                            name0,
+                            k,
+                            replayed.iter().take(12).collect::<Vec<_>>(),
+                            now.iter().take(12).collect::<Vec<_>>()
+                        ),
+                    ));
+                }
+                event_replays = 1;
+            }
             st.continuation(cfg.ops.min(12))?;
             // teardown must not destroy anything twice either
             let w = st.world.take().unwrap();
@@ -490,6 +529,7 @@ fn run_case(rep: &mut Report, case: u64) {
     rep.cases_run += 1;
     rep.op(OPS[op]);
     rep.bump(&format!("kind_{}", name0), 1);
+    rep.bump("event_replays_across_caught_panic", event_replays);
     if injected {
         rep.bump("cases_with_injected_panic", 1);
         rep.bump(&format!("panicked_in_{}", OPS[op]), 1);
